@@ -501,7 +501,7 @@ theorem txAcceptedAux_InvR {K : Keys} {W : Tx → Prop} {rank : TxId → Nat} (U
     InvR K W (txAcceptedAux K mf fuel s recs d) := by
   intro fuel
   induction fuel with
-  | zero => intro s recs d h; exact h
+  | zero => intro s recs d h; exact InvR_of_frame h (Frame.of_eq rfl rfl rfl rfl rfl rfl)
   | succ n ih =>
     intro s recs d h
     unfold txAcceptedAux
@@ -541,18 +541,6 @@ theorem submitNet_InvR {K : Keys} {W : Tx → Prop} {rank : TxId → Nat} (U : U
   split
   · exact h
   · have h2 := processTx_InvR U mf s t { trusted := tr } h ht
-    split
-    · exact txAccepted_InvR U mf _ _ h2
-    · exact h2
-
-theorem submitLocal_InvR {K : Keys} {W : Tx → Prop} {rank : TxId → Nat} (U : Univ K W rank) (mf : Nat) (s : State)
-    (t : Tx) (h : InvR K W s) (ht : W t) : InvR K W (submitLocal K mf s t).2 := by
-  unfold submitLocal
-  dsimp only
-  have h1 := InvR_of_frame h (rejDeleteByIdx_frame K W s (K.bidx t.id))
-  split
-  · exact h1
-  · have h2 := processTx_InvR U mf _ t { trusted := true, loc := true } h1 ht
     split
     · exact txAccepted_InvR U mf _ _ h2
     · exact h2
@@ -688,6 +676,31 @@ theorem setRec_InvR {K : Keys} {W : Tx → Prop} {s s' : State} (h : InvR K W s)
   · intro b0 r0 t hb0 ht
     exact h.rejW b0 r0 t (by rw [← e3]; exact hb0) ht
   · rw [e4]; exact h.undoW
+
+/-- LoadRawTx's "make as own": the record keeps its transaction, only `loc` changes -/
+theorem markLocal_same {K : Keys} {W : Tx → Prop} (s : State) (id : TxId) (h : InvR K W s) :
+    InvR K W (markLocal K s id) ∧
+    ∀ b0 x, s.pool.get? b0 = some x → ∃ x', (markLocal K s id).pool.get? b0 = some x' ∧ x'.tx = x.tx := by
+  unfold markLocal
+  split
+  · rename_i r hr
+    exact setRec_InvR h (K.bidx id) { r with loc := true } rfl (by rw [hr]; rfl) rfl rfl rfl
+  · exact ⟨h, fun b0 x hx => ⟨x, hx, rfl⟩⟩
+
+theorem markLocal_InvR (K : Keys) {W : Tx → Prop} (s : State) (id : TxId) (h : InvR K W s) :
+    InvR K W (markLocal K s id) := (markLocal_same s id h).1
+
+theorem submitLocal_InvR {K : Keys} {W : Tx → Prop} {rank : TxId → Nat} (U : Univ K W rank) (mf : Nat) (s : State)
+    (t : Tx) (h : InvR K W s) (ht : W t) : InvR K W (submitLocal K mf s t).2 := by
+  unfold submitLocal
+  dsimp only
+  have h1 := InvR_of_frame h (rejDeleteByIdx_frame K W s (K.bidx t.id))
+  split
+  · exact markLocal_InvR K _ t.id h1
+  · have h2 := processTx_InvR U mf _ t { trusted := true, loc := true } h1 ht
+    split
+    · exact txAccepted_InvR U mf _ _ h2
+    · exact h2
 
 /-- `s'` satisfies the invariant and holds the same transactions under the same keys as `s` (flags may differ) -/
 def SameTxs (K : Keys) (W : Tx → Prop) (s s' : State) : Prop :=
